@@ -151,6 +151,34 @@ def make_channel_classes():
     return SymPauliChannel, SymDepolChannel
 
 
+_KCH = None
+
+
+def kraus_channel_class():
+    """single-qubit channel given by explicit Kraus matrices with symbolic entries (phase / amplitude damping)"""
+    global _KCH
+    if _KCH is None:
+        cirq = _cirq()
+
+        class SymKrausChannel(cirq.Gate, _SymChannel):
+            def __init__(self, name, kraus):
+                self.name, self.kraus = name, kraus
+
+            def _num_qubits_(self):
+                return 1
+
+            def _has_mixture_(self):
+                return False
+
+            def _has_kraus_(self):
+                return True
+
+            def __repr__(self):
+                return f"SymKrausChannel({self.name})"
+        _KCH = SymKrausChannel
+    return _KCH
+
+
 _CH = None
 
 
@@ -181,12 +209,38 @@ def _install_channel_patch():
 
     cirq.asymmetric_depolarize = asymmetric_depolarize
     cirq.depolarize = depolarize
+    # the other single-qubit channels of cirq with their textbook Kraus operators, so that code reaching for them with
+    # symbolic rates is evaluated exactly instead of escaping
+    for nm_ in ("bit_flip", "phase_flip", "phase_damp", "amplitude_damp"):
+        _ORIG[nm_] = getattr(cirq, nm_)
+
+    def bit_flip(p=None):
+        return SP(Sym.of(p), Sym.of(0), Sym.of(0)) if isinstance(p, Sym) else _ORIG["bit_flip"](p)
+
+    def phase_flip(p=None):
+        return SP(Sym.of(0), Sym.of(0), Sym.of(p)) if isinstance(p, Sym) else _ORIG["phase_flip"](p)
+
+    def _damp(kind):
+        def f(gamma):
+            if not isinstance(gamma, Sym):
+                return _ORIG[kind](gamma)
+            from . import path as _path
+            a, b = _path.sym_sqrt(1 - gamma), _path.sym_sqrt(gamma)
+            z, o = Sym.of(0), Sym.of(1)
+            k1 = [[z, z], [z, b]] if kind == "phase_damp" else [[z, b], [z, z]]
+            return kraus_channel_class()(kind, [[[o, z], [z, a]], k1])
+        return f
+    cirq.bit_flip, cirq.phase_flip = bit_flip, phase_flip
+    cirq.phase_damp, cirq.amplitude_damp = _damp("phase_damp"), _damp("amplitude_damp")
 
 
 def _uninstall_channel_patch():
     cirq = _cirq()
     if "ad" in _ORIG:
         cirq.asymmetric_depolarize, cirq.depolarize = _ORIG["ad"], _ORIG["d"]
+        for nm_ in ("bit_flip", "phase_flip", "phase_damp", "amplitude_damp"):
+            if nm_ in _ORIG:
+                setattr(cirq, nm_, _ORIG[nm_])
 
 
 shim.register_global_patch(_install_channel_patch, _uninstall_channel_patch)
@@ -280,6 +334,12 @@ class SymDensityMatrixSimulator(SymSimulator):
                 SP, SD = channel_classes()
                 if isinstance(g, SP):
                     rho = refsem.dm_pauli_channel(rho, n, qs[0], *g.p)
+                elif isinstance(g, kraus_channel_class()):
+                    acc = None
+                    for K in g.kraus:
+                        t = _dm_conj(rho, n, K, qs)
+                        acc = t if acc is None else refsem.dm_add(acc, t)
+                    rho = acc
                 else:
                     rho = refsem.dm_depolarize_cirq(rho, n, qs, g.prob)
                 continue
